@@ -2,7 +2,7 @@
 use crate::build;
 use crate::daemon::ProcState;
 use crate::engine::*;
-use crate::props::c16::{ext_text, start_tacd};
+use crate::props::c16::{ext_text, start_tacd_limited};
 use crate::tlsclient::{self, Target};
 use proptest::prelude::*;
 use serde::{Deserialize, Serialize};
@@ -10,6 +10,12 @@ use std::io::{Read, Write};
 use std::time::Duration;
 
 pub const BEHAVIOURS: [&str; 7] = ["connect-close", "garbage", "plain-http", "tls-no-alpn", "tls-foreign-alpn", "abandon-after-hello", "50-stalled"];
+/// heavier behaviours, used by the random histories only (the enumeration stays 7^k):
+/// a foreign ALPN offer whose single name is 200 octets long / is not UTF-8; 400 quick failed connections on 8 threads (cumulative
+/// effects); more silent connections than the responder has descriptors (accept fails with EMFILE), closed again before going on
+pub const HEAVY: [&str; 4] = ["tls-long-alpn", "tls-binary-alpn", "400-quick-failures", "fd-burst"];
+/// descriptor limit given to tacd when the history holds an fd-burst (plus 50 per 50-stalled step, which keeps its connections open)
+const NOFILE_BASE: u64 = 64;
 
 #[derive(Clone, Debug, Serialize, Deserialize)]
 pub struct Case {
@@ -45,14 +51,17 @@ impl Conn {
 		drop(self);
 	}
 	fn read_some(&mut self) {
+		self.read_some_ms(300)
+	}
+	fn read_some_ms(&mut self, ms: u64) {
 		let mut buf = [0u8; 4096];
 		match self {
 			Conn::Tcp(s) => {
-				let _ = s.set_read_timeout(Some(Duration::from_millis(300)));
+				let _ = s.set_read_timeout(Some(Duration::from_millis(ms)));
 				let _ = s.read(&mut buf);
 			}
 			Conn::Unix(s) => {
-				let _ = s.set_read_timeout(Some(Duration::from_millis(300)));
+				let _ = s.set_read_timeout(Some(Duration::from_millis(ms)));
 				let _ = s.read(&mut buf);
 			}
 		}
@@ -61,6 +70,11 @@ impl Conn {
 
 /// a syntactically valid TLS 1.2 ClientHello offering acme-tls/1
 fn client_hello(sni: &str) -> Vec<u8> {
+	client_hello_alpn(sni, b"acme-tls/1")
+}
+
+/// ClientHello offering a single ALPN protocol name
+fn client_hello_alpn(sni: &str, p: &[u8]) -> Vec<u8> {
 	let mut ext = vec![];
 	// server_name
 	let mut sn = vec![0u8];
@@ -78,7 +92,6 @@ fn client_hello(sni: &str) -> Vec<u8> {
 	// signature_algorithms
 	ext.extend([0, 13, 0, 8, 0, 6, 4, 3, 8, 4, 4, 1]);
 	// ALPN
-	let p = b"acme-tls/1";
 	let mut al = vec![p.len() as u8];
 	al.extend(p);
 	ext.extend([0, 16]);
@@ -144,6 +157,49 @@ fn behave(b: &str, t: &Target, stalled: &mut Vec<Conn>) {
 				c.reset();
 			}
 		}
+		"tls-long-alpn" => {
+			let _ = tlsclient::handshake(t, "example.org", &["a".repeat(200)], Duration::from_secs(5));
+			let _ = tlsclient::handshake(t, "example.org", &["\u{e9}".repeat(100), "h2".to_string()], Duration::from_secs(5));
+		}
+		"tls-binary-alpn" => {
+			// a ClientHello by hand whose only ALPN name is 255 octets 0x80..0xff (not UTF-8)
+			if let Some(mut c) = Conn::open(t) {
+				let name: Vec<u8> = (0..255u32).map(|i| 0x80 + (i % 128) as u8).collect();
+				c.send(&client_hello_alpn("example.org", &name));
+				c.read_some();
+			}
+		}
+		"400-quick-failures" => {
+			std::thread::scope(|s| {
+				for k in 0..8 {
+					s.spawn(move || {
+						for i in 0..50 {
+							if let Some(mut c) = Conn::open(t) {
+								match (i + k) % 3 {
+									0 => c.send(b"GET / HTTP/1.0\r\n\r\n"),
+									1 => c.send(&[0x16, 0x03, 0x01, 0x00, 0x02, 0xff, 0xff]),
+									_ => {}
+								}
+								if i % 2 == 0 {
+									c.read_some_ms(50);
+								}
+							}
+						}
+					});
+				}
+			});
+		}
+		"fd-burst" => {
+			let mut held = vec![];
+			for _ in 0..(NOFILE_BASE as usize + stalled.len() + 100) {
+				if let Some(c) = Conn::open(t) {
+					held.push(c);
+				}
+			}
+			std::thread::sleep(Duration::from_millis(300));
+			drop(held);
+			std::thread::sleep(Duration::from_millis(300));
+		}
 		"50-stalled" => {
 			for i in 0..50 {
 				if let Some(mut c) = Conn::open(t) {
@@ -167,7 +223,9 @@ pub fn exec(case: &Case) -> Outcome {
 	let dir = scratch_dir("c17");
 	let digest: Vec<u8> = (0..32u8).map(|i| i.wrapping_mul(7).wrapping_add(case.history.len() as u8)).collect();
 	let domain = "valid.c17.test";
-	let mut t = match start_tacd(&tacd, &dir, domain, &ext_text(&digest, false), "flag", "flag", &None, &None, case.unix) {
+	// a descriptor limit only where the history is built to reach it; connections kept open by 50-stalled steps are allowed for
+	let nofile = if case.history.iter().any(|b| b == "fd-burst") { Some(NOFILE_BASE + 50 * case.history.iter().filter(|b| *b == "50-stalled").count() as u64) } else { None };
+	let mut t = match start_tacd_limited(&tacd, &dir, domain, &ext_text(&digest, false), "flag", "flag", &None, &None, case.unix, nofile) {
 		Ok(t) => t,
 		Err(e) => return Outcome::fail("C17:tacd-does-not-start", e),
 	};
@@ -236,9 +294,10 @@ fn all_histories(max_len: usize) -> Vec<Vec<String>> {
 }
 
 pub fn run(ctx: &Ctx, rep: &mut Report) {
-	rep.rule = "histories = ordered selections (with repetition) of 1..4 behaviours from the catalogue {TCP connect+close, garbage bytes, plain HTTP request, TLS handshake without ALPN, TLS handshake offering only h2/http/1.1, connection abandoned after a valid ClientHello, 50 concurrent stalled connections (half of them with half a ClientHello) kept open}: 7+49+343+2401 = 2800 per listener kind; each against a fresh tacd built in the shipped profile (release, panic=abort), followed by a valid acme-tls/1 handshake judged by C16's certificate oracle and a process-state check. quick: all histories of length <= 2 on both listeners plus random longer ones; thorough: all 2800 on TCP and on a unix socket. Every case is non-trivial (each ends with the validation that must still work).".into();
+	rep.rule = "histories = ordered selections (with repetition) of 1..4 behaviours from the catalogue {TCP connect+close, garbage bytes, plain HTTP request, TLS handshake without ALPN, TLS handshake offering only h2/http/1.1, connection abandoned after a valid ClientHello, 50 concurrent stalled connections (half of them with half a ClientHello) kept open}: 7+49+343+2401 = 2800 per listener kind; each against a fresh tacd built in the shipped profile (release, panic=abort), followed by a valid acme-tls/1 handshake judged by C16's certificate oracle and a process-state check. quick: all histories of length <= 2 on both listeners plus random longer ones; thorough: all 2800 on TCP and on a unix socket. heavy: random histories of 1..5 steps that add four heavier behaviours: a foreign ALPN offer with a 200-octet / non-ASCII / non-UTF-8 protocol name, 400 quick failed connections from 8 threads (cumulative state), and an fd-burst (tacd runs with RLIMIT_NOFILE=64(+50 per stalled step); 164+ silent connections are opened so that accept(2) fails with EMFILE, and closed again before the history goes on). Every case is non-trivial (each ends with the validation that must still work).".into();
 	run_replays::<Case>(ctx, rep, "enum", &exec);
 	run_replays::<Case>(ctx, rep, "random", &exec);
+	run_replays::<Case>(ctx, rep, "heavy", &exec);
 	if ctx.replay.is_some() {
 		return;
 	}
@@ -260,4 +319,9 @@ pub fn run(ctx: &Ctx, rep: &mut Report) {
 		let strat = (proptest::collection::vec(proptest::sample::select(BEHAVIOURS.to_vec()), 3..=4), any::<bool>()).prop_map(|(h, unix)| Case { history: h.into_iter().map(|s| s.to_string()).collect(), unix });
 		run_prop(ctx, rep, "random", &strat, 150, default_par(), &exec);
 	}
+	// histories of 1..5 steps over the catalogue and the heavy behaviours (long and binary ALPN names, cumulative failures, descriptor exhaustion)
+	let mut all: Vec<&'static str> = BEHAVIOURS.to_vec();
+	all.extend(HEAVY);
+	let heavy = (proptest::collection::vec(prop_oneof![1 => proptest::sample::select(all), 1 => proptest::sample::select(HEAVY.to_vec())], 1..=5), any::<bool>()).prop_map(|(h, unix)| Case { history: h.into_iter().map(|s| s.to_string()).collect(), unix });
+	run_prop(ctx, rep, "heavy", &heavy, ctx.tier.pick(80, 1200), 8, &exec);
 }
